@@ -138,6 +138,16 @@ pub fn gen(seed: u64, tier: &str) -> Vec<Value> {
     let statuses: Vec<Vec<u8>> = vec![b"".to_vec(), b"0".to_vec(), b"00".to_vec(), b"7".to_vec(), b"16".to_vec(), b"17".to_vec(), b"-1".to_vec(), b"1e1".to_vec(), b"+1".to_vec(), b" 1".to_vec(), b"1 ".to_vec(), vec![b'9'; 300], vec![0xff, 0xfe], b"2".to_vec(), b"13".to_vec(), b"016".to_vec()];
     let msgs: Vec<Vec<u8>> = vec![b"ok".to_vec(), b"%".to_vec(), b"%4".to_vec(), b"%zz".to_vec(), b"%C3%A9".to_vec(), b"%C3".to_vec(), b"%FF%FE".to_vec(), b"a%20b%25".to_vec(), vec![0xc3, 0xa9], vec![0xff], b"%00".to_vec(), b"".to_vec()];
     let dets: Vec<Vec<u8>> = vec![b"".to_vec(), b"AAID".to_vec(), b"AAI".to_vec(), b"AAI=".to_vec(), b"AA==".to_vec(), b"AA".to_vec(), b"A".to_vec(), b"A===".to_vec(), b"!!!!".to_vec(), b"AA=A".to_vec(), b"AAJ".to_vec(), b"AB".to_vec(), b"AA I".to_vec(), b"=".to_vec(), vec![0xff, 0x41], b"AAIDAA==".to_vec(), b"AAID====".to_vec()];
+    // sweep of the grpc-status value itself: every 1-byte value, and every 2-byte value whose first byte is one a decimal
+    // code can start with (or a near miss); thorough: every 2-byte value
+    let legal = |b: u8| b == 9 || (32..=126).contains(&b) || b >= 128;
+    let firsts: Vec<u8> = if tier == "thorough" { (0..=255u8).filter(|b| legal(*b)).collect() } else { vec![b'0', b'1', b'2', b'9', b' ', b'-', b'+', b'/', b':'] };
+    for b in (0..=255u8).filter(|b| legal(*b)) { out.push(json!({"kind":"parse","class":"status_value_sweep","headers":[{"n":"grpc-status","v":bytes_json(&[b])}]})); }
+    for a in firsts.iter() { for b in (0..=255u8).filter(|b| legal(*b)) {
+        out.push(json!({"kind":"parse","class":"status_value_sweep","headers":[{"n":"grpc-status","v":bytes_json(&[*a, b])},{"n":"grpc-message","v":bytes_json(b"m")}]}));
+    } }
+    for _ in 0..200 { let v: Vec<u8> = (0..3).map(|_| b"0123456789 +-./:&"[rng.gen_range(0..17)]).collect();
+        out.push(json!({"kind":"parse","class":"status_value_sweep","headers":[{"n":"grpc-status","v":bytes_json(&v)}]})); }
     let m = if tier == "thorough" { 3000 } else { 600 };
     for _ in 0..m {
         let mut hs = vec![];
